@@ -1,5 +1,6 @@
 import PdfModel.Lemmas.Serialize
 import PdfModel.Lemmas.Indirect
+import PdfModel.Lemmas.SerializeS
 
 /-!
   C04 — serialised objects parse back to the same value.
@@ -48,7 +49,7 @@ theorem serialize_conformant (fmt : R → List UInt8) (pr : List UInt8 → Optio
     back by `parse_with_lexer_ctx` as exactly `v` (reals with the same value, not merely an equal integer) and
     the cursor rests right after the value's text.  `Ahead`: what follows does not merge with the value
     into another object (`<int> <int> R`, `<dict> stream`): true of everything the writer places there.
-    Partial: streams below the top level are excluded (`Serialisable`), see `C04_full`. -/
+    Streams below the top level are outside `Serialisable` here; `parse_serialize_full` covers them. -/
 theorem parse_serialize_partial (env : Env R) (hd : env.decrypt = none) (fmt : R → List UInt8) (v : Prim R)
     (hser : Serialisable fmt env.parseReal v) (hwf : WF v) (hdepth : vdepth v ≤ maxDepth) :
     ∃ txt trail, serialize fmt v = .ok (txt ++ trail) ∧ (trail = [] ∨ trail = [10]) ∧
@@ -174,17 +175,51 @@ theorem parse_serialize_stream (env : Env R) (hd : env.decrypt = none) (fmt : R 
   rw [hp]
   simp [objFrame]; omega
 
-/-- The full-strength statement of the property at model level: *every* value the object model can hold —
-    including a stream object nested inside an array or dictionary of an indirect object (not legal PDF,
-    but constructible) — is read back from its framed serialisation as an equal value.
-    `parse_serialize_indirect` / `parse_serialize_stream` prove it for all values whose streams sit at the
-    top level of the indirect object; the nested-stream case is neither proved nor refuted (the harness
-    generates such values: no failure observed). -/
+/-- **The full-strength statement** of the property at model level: *every* value the object model can hold —
+    32-bit integers, object numbers within `u64`, UTF-8 names and distinct keys (the invariants of the Rust types:
+    `Storable`, `WF`), reals satisfying the `f32` text hypotheses, nesting within `MAX_DEPTH`, and **stream objects
+    anywhere**, also nested inside arrays, dictionaries and other streams' dictionaries (constructible, though not
+    legal PDF), `Pending` with a `/Length` that is the length of their data — serialises, and its serialisation framed
+    as `save` frames it is read back by `parse_indirect_object`, anywhere in a buffer, as the same value (`Reads`:
+    equal; where the value holds a `Pending` stream the result holds the `InFile` stream of this object with the same
+    dictionary whose `file_range` covers exactly the data), the cursor right after `endobj`. -/
 def C04_full : Prop :=
-  ∀ (R : Type) (env : Env R) (fmt : R → List UInt8) (v : Prim R) (id gen : Nat) (body : List UInt8) (buf : Buf) (fuel : Nat),
-    env.decrypt = none → serialize fmt v = .ok body → buf.toList = objFrame id gen body → buf.size ≤ 2147483647 →
-    3 * buf.size ≤ fuel →
-    ∃ v' p, parseIndirectObject env buf fuel 0 Flags.any = .ok (((id, gen), v'), p)
+  ∀ (R : Type) (env : Env R) (fmt : R → List UInt8) (v : Prim R) (id gen : Nat),
+    env.decrypt = none → Storable fmt env v → WF v → vdepth v ≤ maxDepth →
+    id ≤ 18446744073709551615 → gen ≤ 18446744073709551615 →
+    ∃ body, serialize fmt v = .ok body ∧
+      ∀ (buf : Buf) (pre post : List UInt8) (fuel : Nat), buf.size ≤ 2147483647 →
+        buf.toList = pre ++ (objFrame id gen body ++ post) → need v ≤ fuel →
+        ∃ p, parseIndirectObject env buf fuel pre.length Flags.any =
+            .ok (((id, gen), p), pre.length + (objFrame id gen body).length - 1) ∧
+          PdfSyntax.Reads env buf (id, gen) p v
+
+/-- **C04 at full strength holds** (nested stream objects included; the implementation agrees: harness witnesses
+    `[ <stream> 7 ]`, `<< /S <stream> >>`, a stream inside a stream's dictionary, through hand framing and through the
+    real `Storage::save`). -/
+theorem parse_serialize_full : C04_full := by
+  intro R env fmt v id gen hd hst hwf hdepth hid hgen
+  obtain ⟨txt, trail, h1, h2, h3⟩ := serialize_spellsS fmt env v hst
+  refine ⟨txt ++ trail, h1, ?_⟩
+  intro buf pre post fuel hsz hbuf hfuel
+  have hs : Suffix buf pre.length ([] ++ fmtNat id ++ [32] ++ fmtNat gen ++ [32] ++ kwObj ++ [10] ++ txt ++ (trail ++ [10]) ++
+      kwEndobj ++ ([10] ++ post)) := by
+    have := suffix_of_toList hbuf
+    simpa [objFrame] using this
+  have hsp1 : Gap [32] := Gap.ws 32 [] (by decide) Gap.nil
+  have hnl : Gap [10] := Gap.ws 10 [] (by decide) Gap.nil
+  obtain ⟨p, hp, hr⟩ := parseIndirectObject_spellsS env hd v txt h2 hwf hsz [] (fmtNat id) [32] (fmtNat gen) [32] [10] (trail ++ [10])
+    ([10] ++ post) id gen pre.length fuel Gap.nil (fmtNat_spec id) (fmtNat_spec gen) hsp1 (by simp) hsp1 (by simp) hid hgen hnl
+    (gap_append (gap_trail h3) hnl) hs (by simp [Bnd]; decide) (fun _ => by simp) (by simp [Bnd]; decide) hfuel hdepth
+    Flags.any (any_allows v)
+  refine ⟨p, ?_, hr⟩
+  rw [hp]
+  simp [objFrame]; omega
+
+/-- for values without streams `Reads` is equality: the full theorem contains `parse_serialize_indirect` -/
+theorem reads_atom_eq (env : Env R) (buf : Buf) (id : Nat × Nat) (p : Prim R) (i : Int) :
+    PdfSyntax.Reads env buf id p (.int i) ↔ p = .int i := by
+  simp [PdfSyntax.Reads]
 
 /-! ### non-vacuity: the hypotheses are satisfiable by non-trivial values, and the conclusions compute -/
 
@@ -233,6 +268,44 @@ example :
              | .dict [(_, .arr [.int 5, .str [97, 40, 98], .name [120, 32, 121], .ref 3 0, .real [50, 46, 53], .real [55]]),
                       (_, .dict [])] => true
              | _ => false)
+        | _ => false)
+     | _ => false) = true := by decide +kernel
+
+
+/-- `[ <stream /Length 3, data "abc"> 7 ]`: a stream object nested inside an array -/
+def nested : Prim (List UInt8) :=
+  .arr [.stream [([76, 101, 110, 103, 116, 104], .int 3)] (.pending [97, 98, 99]), .int 7]
+
+theorem nested_storable : Storable id txtEnv nested ∧ WF nested ∧ vdepth nested ≤ maxDepth := by
+  refine ⟨?_, ?_, by decide⟩
+  · simp only [nested, Storable, StorableL, StorableE, and_true]
+    refine ⟨⟨[97, 98, 99], rfl, by decide, Or.inl ?_⟩, by decide, by decide⟩
+    simp [dictGet, kwLength]
+  · simp [nested, WF, WFL, WFE, keysOf, utf8Valid]
+
+/-- the full theorem applies to it: read back from its frame, the array holds the stream of object `12 0` with the
+    same dictionary, a `file_range` of three bytes that are `abc`, and the integer 7 -/
+example : ∃ body p, serialize id nested = .ok body ∧
+    parseIndirectObject txtEnv (objFrame 12 0 body).toArray 1000 0 Flags.any =
+      .ok (((12, 0), p), (objFrame 12 0 body).length - 1) ∧
+    PdfSyntax.Reads txtEnv (objFrame 12 0 body).toArray (12, 0) p nested := by
+  obtain ⟨body, h1, h2⟩ := parse_serialize_full _ txtEnv id nested 12 0 rfl nested_storable.1 nested_storable.2.1
+    nested_storable.2.2 (by decide) (by decide)
+  have hb : body.length ≤ 200 := by
+    have e : (match serialize id nested with | .ok b => decide (b.length ≤ 200) | _ => false) = true := by decide +kernel
+    rw [h1] at e; simpa using e
+  have hsz : (objFrame 12 0 body).toArray.size ≤ 2147483647 := by
+    simp [objFrame, fmtNat, natDigitsAux, kwObj, kwEndobj]; omega
+  obtain ⟨p, hp, hr⟩ := h2 (objFrame 12 0 body).toArray [] [] 1000 hsz (by simp) (by decide)
+  exact ⟨body, p, h1, by simpa using hp, hr⟩
+
+/-- and the model computes exactly that (kernel evaluation): `[<<\n/Length 3\n>>\nstream\nabc\nendstream\n 7]` -/
+example :
+    (match serialize id nested with
+     | .ok body =>
+       (match parseIndirectObject txtEnv (objFrame 12 0 body).toArray 400 0 Flags.any with
+        | .ok (((12, 0), .arr [.stream [(_, .int 3)] (.inFile 12 0 lo hi), .int 7]), _) =>
+            slice (objFrame 12 0 body).toArray lo hi == [97, 98, 99]
         | _ => false)
      | _ => false) = true := by decide +kernel
 
